@@ -341,7 +341,8 @@ class GriffeLoader:
                 # Try getting the module from which every public object is imported.
                 try:
                     target = self.modules_collection.get_member(member.target_path)  # type: ignore[union-attr]
-                except KeyError:
+                except (KeyError, AliasResolutionError, CyclicAliasError):
+                    # (The path can go through an alias that cannot be resolved.)
                     logger.debug(
                         "Could not expand wildcard import %s in %s: %s not found in modules collection",
                         member.name,
